@@ -429,10 +429,20 @@ func (d *Dialer) DialContext(ctx context.Context, urlStr string, requestHeader h
 	}
 	w.Dials = append(w.Dials, rec)
 	if err != nil {
+		if bh, ok := err.(*BadHandshake); ok {
+			// the peer answered the handshake with something other than 101
+			return nil, bh.Resp, ErrBadHandshake
+		}
 		return nil, nil, err
 	}
 	return c, &http.Response{StatusCode: 101, Header: http.Header{}}, nil
 }
+
+// BadHandshake is returned by OnDial to make the dial fail the way gorilla does
+// when the peer answers the opening handshake with a non-101 response.
+type BadHandshake struct{ Resp *http.Response }
+
+func (b *BadHandshake) Error() string { return ErrBadHandshake.Error() }
 
 type nullRW struct {
 	h    http.Header
